@@ -19,6 +19,16 @@ CLAIMED = {
         "Minute pairs are a boundary-value subset of 1440^2 (00:00, 00:01, 01:00, 11:59, 12:00, 23:59); "
         "well-formed HH:MM strings only; TLC's evaluation of the spec is the oracle.",
         "6/C14"),
+    "C16": (
+        "TLA+ spec Cobs.tla: TLC checks in-order/exactly-once delivery and damage containment over all "
+        "device-read interleavings; TLC-generated wires replayed into the real CobsWrapper under all segmentations",
+        "Every frame sequence and single damage event of the model is checked by TLC over all read sizes, then "
+        "each wire is replayed into the real CobsWrapper.Read under every one of its 2^(n-1) segmentations; the "
+        "spec's encoder is bound to the real writer byte for byte. Long frames (0xFF blocks, length guard) are a "
+        "driver-generated family with the same oracle.",
+        "Payload alphabet {0,1,2}, frames of 1..2 bytes, <=3 frames per stream in the TLC family; long frames "
+        "sampled beyond all pairs of cuts; zero-length frames excluded (consumer discards them).",
+        "6/C16"),
 }
 
 NOT_YET = "check not built yet in this round (planned, see DESIGN.md section 6)"
